@@ -5,13 +5,13 @@ import (
 	"strings"
 )
 
-var urlSchemes = []string{"http", "https", "mailto", "ftp", "javascript", "vbscript", "data", "file", "tel", "x-app", "HTTP", "JaVaScRiPt", "Https", "livescript", "mhtml", "view-source", "ws", "blob", "about", "h.t-t+p", "1http", "ht tp", "http ", ""}
+var urlSchemes = []string{"web+https", "git+http", "x+mailto", "https+x", "svn+ssh", "http.s", "https-x", "shttp", "xhttps", "http", "https", "mailto", "ftp", "javascript", "vbscript", "data", "file", "tel", "x-app", "HTTP", "JaVaScRiPt", "Https", "livescript", "mhtml", "view-source", "ws", "blob", "about", "h.t-t+p", "1http", "ht tp", "http ", ""}
 
 var urlHosts = []string{"example.org", "EXAMPLE.org", "cdn.example.net", "user:pw@example.org", "[::1]", "xn--e1afmkfd.example", "éxample.org", "example.org:8080", "", "127.0.0.1", "a_b.example", "exa mple.org", "example.org.", "%65xample.org", "evil.example"}
 
 var urlPaths = []string{"", "/", "/a/b.png", "/a b", "/a%20b", "/%zz", "/a/../b", "/a;p=1", "/é", "/\x00", "/<script>", "/a\"b", "/a'b", "/a\\b", "//double", "/a:b", "a:b", "rel/path", "./x", "../x", "/ok/file", "/a\tb", "/a\nb"}
 
-var urlQueries = []string{"", "?", "?a=1", "?a=1&b=2", "?a=1;b=2", "?a", "?=v", "?a=%zz", "?<x>=1", "?a=\"x\"", "?q=a b", "?a=1&a=2&&", "?k%3D=v%26", "?ü=ö"}
+var urlQueries = []string{"?a=1&amp;amp;amp;b=2", "?x=&amp;amp;amp;amp;", "?a=&amp;amp;lt;b&amp;amp;gt;", "?q=&amp;#38;amp;", "", "?", "?a=1", "?a=1&b=2", "?a=1;b=2", "?a", "?=v", "?a=%zz", "?<x>=1", "?a=\"x\"", "?q=a b", "?a=1&a=2&&", "?k%3D=v%26", "?ü=ö"}
 
 var urlFrags = []string{"", "#", "#top", "#a b", "#<x>", "#%zz", "#a#b"}
 
@@ -91,7 +91,7 @@ func HostileURL(r *rand.Rand) string {
 
 var canonHosts = []string{"example.org", "cdn.example.net", "a.b.example", "example.org:8080", "127.0.0.1"}
 var canonPaths = []string{"", "/", "/a/b.png", "/a%20b", "/ok/file", "/x_y-z.html", "/a;p=1"}
-var canonQueries = []string{"", "?a=1", "?a=1&b=2", "?q=x%20y", "?a"}
+var canonQueries = []string{"?a=1&amp;amp;amp;b=2", "?x=&amp;amp;lt;", "", "?a=1", "?a=1&b=2", "?q=x%20y", "?a"}
 var canonFrags = []string{"", "#top", "#a-b"}
 
 // CanonicalURL returns a URL for which net/url's parse-then-String (and the
